@@ -22,6 +22,10 @@ GUARDS = [
     (r"S\.labelsOKB = true", "(family_labelsOK _ {hS})"),
     (r"textStableC S = true", "(family_textStableC _ {hS})"),
     (r"S\.closableB = true", "(family_closable _ {hS})"),
+    (r"joinCompatB S = true", "(family_joinCompat _ {hS})"),
+    (r"reopenOKB S = true", "(family_reopenOK _ {hS})"),
+    (r"textAbsorbB S = true", "(family_textAbsorb _ {hS})"),
+    (r"inlineUniformB S = true", "(family_inlineUniform _ {hS})"),
     (r"PM\.FromDom\.leafOkB S = true", "(family_leafOk _ {hS})"),
     (r"PM\.FromDom\.textStableB S = true", "(family_textStable _ hS)"),
     (r"C01\.TextStable S", "(textLoop_of_B _ (family_textLoop _ {hS})).stable"),
@@ -42,13 +46,13 @@ GUARDS = [
 # property → (theorems, uses the DOM sub-family)
 TARGETS = {
     "C01": ["addMark_applies", "removeMark_applies"],
-    "C04": ["replace_undo_transitive", "removeMarkStep_undo", "addMarkStep_undo", "markHistory_undo", "markHistory_undo_bmp",
+    "C04": ["replace_undo_transitive", "replaceAround_undo_bmp", "removeMarkStep_undo", "addMarkStep_undo", "markHistory_undo", "markHistory_undo_bmp",
             "family_step", "family_history_undo", "family_history_undo_run", "opHistory_undo", "structHistory_undo_bmp",
             "structHistory_undo_bmp'", "mixedHistory_undo_bmp",
             "delete_residual", "delete_residual_around", "insertInline_residual", "insertInline_residual_around",
             "replace_residual_of_inv", "replace_residual", "replace_residual_cut",
             "replaceOp_residual", "editHistory_undo_bmp", "editResidual_of'", "editHistory_undo_bmp'",
-            "fit_around_gapFitsBack", "editResidual'_of_hyps", "editHistory_undo", "deleteOp_residual",
+            "editResidual'_of_hyps", "editHistory_undo", "deleteOp_residual",
             "insertInlineOp_residual", "editHistory_undo'", "insertInlineOp_residual'"],
     "C11": ["fitStep_decreases", "fitLoop_outOfFuel_exact", "fitLoop_terminates", "replaceStep_outOfFuel_cycle",
             "replaceStep_not_outOfFuel", "fit_no_internal_partial", "replaceStep_total_partial", "delete_total",
@@ -65,7 +69,11 @@ TARGETS = {
             "insertInline_valid_of_norm", "replace_valid_of_inv_of_norm", "insertInline_valid", "replace_valid_of_inv",
             "fit_emits_valid_payload", "payloadInv_step_gen", "fit_emits_valid_payload_cut", "fit_replace_recorded_valid",
             "delete_recorded_valid", "fit_no_raise_partial", "fit_raise_sites",
-            "trivialFit_delete_applies", "delete_applies_flat", "delete_never_raises_flat"],
+            "trivialFit_delete_applies", "delete_applies_flat", "delete_never_raises_flat",
+            "fit_step_returns", "startSite_exact", "fit_no_raise_while", "fit_no_raise", "fit_no_raise_emits", "fit_raises_only_at_sites",
+            "delete_applies", "delete_never_raises", "deleteRange_applies", "deleteRange_never_raises",
+            "replaceRange_delete_applies", "trivialFit_replace_applies", "replace_never_raises_flat",
+            "insertInline_never_raises_flat", "replace_applies_direct", "insertInline_never_raises_direct_partial"],
     "C12": ["canJoin_join_applies", "liftTarget_lift_applies_flat", "liftTarget_lift_applies", "insertPoint_insert_applies",
             "dropPoint_drop_applies_closed", "joinPoint_join_applies", "insertPoint_insert_text_applies",
             "insertPoint_insert_marked_top"],
@@ -188,7 +196,7 @@ def gen(prop):
                     concl = re.sub(r"\bdfas\b", "(S.nodes.toList.map (·.dfa))", concl)
                 continue
             if hit is not None:
-                if "family_textStable" in hit:
+                if "family_textStable _" in hit:        # (not `family_textStableC`, which holds of the whole family)
                     used_dom = True
                 args += [hit] * len(names)
                 continue
